@@ -250,6 +250,10 @@ func TestVF_C08_Cluster(t *testing.T) {
 				Fault{Kind: FStopReplica, A: vfhelp.Pick(t, "sr", 2), B: vfhelp.Pick(t, "srb", 3), AfterMs: 10 + vfhelp.PickN(t, "srafter", 40)},
 				Fault{Kind: FPowerCut, A: vfhelp.Pick(t, "pch", 2), AfterMs: 10 + vfhelp.PickN(t, "pcafter", 40)},
 				Fault{Kind: FRestart, AfterMs: 20 + vfhelp.PickN(t, "rsafter", 60)})
+			if p.SlowSnapMs > 0 {
+				// a replica stopped / a host closed while its snapshot worker is inside SaveSnapshot
+				p.Faults = append(p.Faults, Fault{Kind: FCloseDuringSnapshot, A: vfhelp.Pick(t, "cds", 2), AfterMs: 10 + vfhelp.PickN(t, "cdsafter", 40)})
+			}
 		},
 		rule: "non-trivial = >= 1 snapshot was saved, the log was compacted and a replica was afterwards rebuilt from a snapshot (restart or install)",
 		nontriv: func(res *Result) bool {
